@@ -420,7 +420,7 @@ fn run_node(rep: &mut Report, tier: Tier, stakes: &[u32], node: usize, max_round
                             if !f.iter().any(|x| x.0 == sig) {
                                 let mut events: Vec<String> = hist.iter().map(|e| s.describe_ev(e)).collect();
                                 events.push(format!("deliver INVALID {}: {}", d, s.uni.msg(*mid).desc));
-                                let mut raw: Vec<String> = hist.iter().map(|e| match e { Ev::Timer => "timer".to_string(), Ev::Deliver(m) => crate::util::hex(&s.uni.msg(*m).bytes) }).collect();
+                                let mut raw: Vec<String> = hist.iter().map(|e| s.raw_ev(e)).collect();
                                 raw.push(crate::util::hex(&s.uni.msg(*mid).bytes));
                                 f.push((sig, format!("[{}] after {} events, an invalid message ({}) was not ignored: {}", cfg.name, hist.len(), d, why), json!({"engine":"c04","stage":"node","kind":"local","node":node,"events":events,"events_raw":raw})));
                             }
